@@ -132,6 +132,28 @@ Proof.
   intros t fs ts' H1 H2. apply (permuted_consistent_lemma false t fs ts' H1). now right.
 Qed.
 
+(* ---- HelicityAdapter as a state machine (Kin.hstep / run_history; tied to /repo by histories in the
+   correspondence run): create_expressions has no memory, covers every registered topology, and
+   register_topology only admits topologies over the same initial and final state ids ---- *)
+Theorem C07_create_covers_registered : forall fixed ts t n,
+  In t ts ->
+  In n (keys (hel fixed t [] [])) \/ In n (keys (inv_mass_entries t)) ->
+  In n (keys (create_expressions_gen fixed ts)).
+Proof. exact create_covers_lemma. Qed.
+
+Theorem C07_adapter_has_no_memory : forall fixed s ops1 ops2,
+  let s1 := fst (run_history fixed s ops1) in
+  snd (run_history fixed s (ops1 ++ HCreate :: ops2))
+  = snd (run_history fixed s ops1) ++ model_create_gen fixed s1 :: snd (run_history fixed s1 ops2).
+Proof. exact run_history_create_lemma. Qed.
+
+Theorem C07_register_guard : forall s e t,
+  register_ok (e :: s) t = true ->
+  tree_of_topo t <> None /\
+  zset_eqb (incoming_ids t) (incoming_ids e) = true /\
+  zset_eqb (outgoing_ids t) (outgoing_ids e) = true.
+Proof. exact register_guard_lemma. Qed.
+
 (* ---- T1: what the atoms of an abstract term compute, on the trees regenerated from /repo
    (per-event meaning of the generated NumPy code, cse on and off) ---- *)
 Theorem C07_mass_is_minkowski_norm : forall t, t = mass_cse \/ t = mass_nocse -> forall E x y z : R,
@@ -207,6 +229,9 @@ Print Assumptions C07_create_expressions_order_independent.
 Print Assumptions C07_create_expressions_order_refuted.
 Print Assumptions C07_create_expressions_order_independent_repaired.
 Print Assumptions C07_permuted_topologies_consistent.
+Print Assumptions C07_create_covers_registered.
+Print Assumptions C07_adapter_has_no_memory.
+Print Assumptions C07_register_guard.
 Print Assumptions C07_mass_is_minkowski_norm.
 Print Assumptions C07_mass_of_sum_is_minkowski_norm.
 Print Assumptions C07_phi_is_azimuth.
